@@ -449,3 +449,173 @@ Proof.
     + match goal with |- context [mj_default_x rp ?f sub (S k)] =>
         pose proof (mj_default_x_no_crash rp Hrp f sub (S k) Hwf') as H; destruct (mj_default_x rp f sub (S k)) end; [exact I|exact H].
 Qed.
+
+(* ================================================================ the repair changes no answer the pinned loop gave *)
+(* wherever the pinned tie-break does not end in StatisticsError - it answers, refuses a lasting tie, or runs out of the
+   model's fuel - the repaired one does the same: nobody was exhausted before the others on the way *)
+Theorem mj_default_x_conservative rp : forall fuel sub n, mj_wf sub -> (1 <= n <= length sub)%nat ->
+  mj_default fuel sub n <> inr SE_stats -> mj_default_x rp fuel sub n = mj_default fuel sub n.
+Proof.
+  induction fuel as [|f IH]; intros sub n Hwf Hn Hns; [reflexivity|].
+  rewrite MJ_seats_proofs.mj_default_unfold in Hns |- *. cbn [mj_default_x].
+  destruct (fold_left Z.max (map (fun cd : C * cscores => cs_total (snd cd)) sub) 0%Z <=? 0)%Z; [reflexivity|].
+  destruct (aggregate FMedianLow sub) as [medians|e] eqn:Ea.
+  2:{ exfalso. apply Hns. f_equal.
+      (* the only error of the low median is StatisticsError *)
+      clear -Ea. induction sub as [|cd sub IHs]; [discriminate|]. rewrite aggregate_cons in Ea.
+      destruct (aggregate_one FMedianLow (snd cd)) as [y|e0] eqn:Ey.
+      - destruct (aggregate FMedianLow sub) as [r|e1]; [discriminate|]. injection Ea as <-. apply IHs. reflexivity.
+      - injection Ea as <-. rewrite median_unfold in Ey. destruct (expand (snd cd)); [injection Ey as <-; reflexivity|discriminate]. }
+  (* every candidate has a median, hence a score: nobody is dropped *)
+  destruct Hwf as (Hnd & Hok).
+  assert (Hlive : mj_live sub = sub).
+  { unfold mj_live. apply filter_keep_all. intros cd Hcd. apply negb_true_iff, Z.eqb_neq. intros Hz.
+    destruct cd as [c d]. destruct (medians_in sub medians c d Hnd Ea Hcd) as (v & _ & Hav & _). cbn [snd] in Hz.
+    rewrite Forall_forall in Hok. destruct (Hok _ Hcd) as (Hnn & _). cbn [snd] in Hnn.
+    destruct (nonneg_total_zero d Hnn Hz) as (_ & He). rewrite median_unfold, He in Hav. discriminate. }
+  assert (Hs1 : (if rp_mj rp then mj_live sub else sub) = sub) by (destruct (rp_mj rp); [exact Hlive|reflexivity]). rewrite Hs1.
+  assert (Hlen : rp_mj rp && Nat.ltb (length sub) n = false) by (destruct (rp_mj rp); [apply Nat.ltb_ge; lia|reflexivity]).
+  rewrite Hlen, (aggregate_x_ok rp _ _ Hok), Ea. cbv zeta in Hns |- *.
+  assert (Hndm : NoDup (map fst medians)) by (rewrite (aggregate_keys _ _ _ Ea); exact Hnd).
+  pose proof (aggregate_keys _ _ _ Ea) as Hkeys.
+  change (fun r : res C => match r with Cand _ => true | TieR _ => false end) with is_cand.
+  destruct (gnb_cases medians n (proj1 Hn) Hndm) as [(Hct & _)|(above & level & below & thr & k & Hp & _ & _ & _ & Hbest & Hlenb & Hk)].
+  - rewrite Hct. reflexivity.
+  - destruct (perm_parts _ _ _ _ Hndm Hp) as (Hnda & Hndl & Hlv).
+    revert Hns. rewrite Hbest, count_tie_app, filter_cand_app, map_length. cbn [Nat.eqb].
+    assert (Hcase : above = [] \/ (0 <? length above)%nat = true) by (destruct above; [left; reflexivity|right; reflexivity]).
+    destruct Hcase as [->|Hpos].
+    + cbn [length Nat.ltb Nat.leb map app repeat]. intros Hns.
+      change (mj_default_x rp f (mj_round sub medians (map fst level)) n = mj_default f (mj_round sub medians (map fst level)) n).
+      apply IH; [apply (mj_wf_round _ _ _ (conj Hnd Hok) Ea)| |exact Hns].
+      assert (Hge : (length level <= length (mj_round sub medians (map fst level)))%nat).
+      { apply keys_incl_length; [exact Hndl|]. intros c Hc. rewrite mj_round_keys. destruct (Hlv c Hc) as (Hm & _).
+        rewrite Hkeys in Hm. apply in_map_iff in Hm. destruct Hm as ([c0 d] & Hc0 & Hd). cbn [fst] in Hc0. subst c0.
+        apply in_map_iff. exists (c, d). split; [reflexivity|]. unfold mj_level. apply filter_In. split; [exact Hd|].
+        cbn [fst]. apply cmem_In, Hc. }
+      cbn [length] in Hlenb. lia.
+    + rewrite Hpos.
+      assert (Hfn : firstn (length above) (map cand_of above ++ repeat (TieR (map fst level)) (S k)) = map cand_of above).
+      { rewrite <- (map_length (@cand_of C Q) above), firstn_app, firstn_all, Nat.sub_diag, firstn_O, app_nil_r. reflexivity. }
+      rewrite Hfn, cands_of_map. replace (n - length above)%nat with (S k) by lia.
+      set (sub' := filter (fun cd : C * cscores => negb (cmem (fst cd) (map fst above))) sub).
+      intros Hns. rewrite (IH sub' (S k)); [reflexivity|apply mj_wf_filter; split; assumption| |].
+      * assert (Hge : (length level <= length sub')%nat).
+        { apply keys_incl_length; [exact Hndl|]. intros c Hc. destruct (Hlv c Hc) as (Hm & Hna).
+          rewrite Hkeys in Hm. apply in_map_iff in Hm. destruct Hm as ([c0 d] & Hc0 & Hd). cbn [fst] in Hc0. subst c0.
+          apply in_map_iff. exists (c, d). split; [reflexivity|]. unfold sub'. apply filter_In. split; [exact Hd|].
+          cbn [fst]. apply negb_true_iff. destruct (cmem c (map fst above)) eqn:E; [|reflexivity]. apply cmem_In in E. contradiction. }
+        lia.
+      * intros E. apply Hns. rewrite E. reflexivity.
+Qed.
+
+(* ================================================================ ... nor any answer of the evaluators *)
+(* a dictionary whose mean / low median exists holds a score *)
+Lemma aggregate_one_holds fn d v : fn <> FSum -> cs_okd d -> aggregate_one fn d = inl v -> (1 <= cs_total d)%Z.
+Proof.
+  intros Hfn Hd Ha. pose proof (expand_length d (proj1 Hd)) as Hl. pose proof (cs_total_nonneg d (proj1 Hd)) as H0.
+  destruct (Z.eq_dec (cs_total d) 0) as [Hz|Hz]; [exfalso|lia].
+  destruct (nonneg_total_zero d (proj1 Hd) Hz) as (_ & He). destruct fn; [|congruence|]; unfold aggregate_one in Ha; rewrite He in Ha; discriminate.
+Qed.
+
+(* the corrections of one candidate: when the pinned code leaves a score, the repaired code gives the same dictionary *)
+Lemma correct_scores_x_same rp cf d nv d3 : cs_okd d -> (sc_unscored cf = UNone \/ (cs_total d <= nv)%Z) -> (0 <= nv)%Z ->
+  correct_scores cf d nv = inl d3 -> (1 <= cs_total d3)%Z -> correct_scores_x rp cf d nv = inl d3.
+Proof.
+  intros Hd Hb Hnv Hc HT. rewrite <- Hc. rewrite correct_scores_unfold in Hc. rewrite correct_scores_x_unfold, correct_scores_unfold.
+  destruct (cs_total d <? sc_min_count cf)%Z eqn:Em; [reflexivity|].
+  destruct (unscored_fill cf d nv) as [d1|e] eqn:E1; [|reflexivity].
+  destruct (Qle_bool (sc_trunc cf) 0) eqn:Et; [reflexivity|]. cbv zeta.
+  destruct (rp_trunc rp); [|reflexivity].
+  assert (Hd1 : cs_okd d1).
+  { apply (correct_scores_okd {| sc_fn := sc_fn cf; sc_unscored := sc_unscored cf; sc_min_count := sc_min_count cf; sc_trunc := 0%Q; sc_bottom := sc_bottom cf |} d nv d1 Hd Hb).
+    rewrite correct_scores_unfold. cbn [sc_min_count sc_trunc]. rewrite Em.
+    unfold unscored_fill in *. cbn [sc_unscored]. rewrite E1. reflexivity. }
+  assert (Hc0 : (0 <= trunc_cutoff cf d nv)%Z).
+  { assert (Hpos : (0 < sc_trunc cf)%Q) by (apply Qnot_le_lt; intros H; apply Qle_bool_iff in H; congruence).
+    assert (Hfl : forall x, (0 <= x)%Q -> (0 <= Qfloor x)%Z) by (intros x Hx; exact (Qfloor_resp_le 0 x Hx)).
+    unfold trunc_cutoff. destruct (Qle_bool 1 (sc_trunc cf)); apply Hfl; [apply Qlt_le_weak, Hpos|].
+    apply Qmult_le_0_compat; [|apply Qlt_le_weak, Hpos].
+    pose proof (cs_total_nonneg d (proj1 Hd)) as Htot.
+    destruct (nv =? 0)%Z; change 0%Q with (inject_Z 0); rewrite <- Zle_Qle; assumption. }
+  destruct (truncation_total d1 (trunc_cutoff cf d nv) Hd1 Hc0) as (d2 & d3' & E2 & E3 & Htot).
+  rewrite E2, E3 in Hc. injection Hc as <-.
+  destruct (mid_cutoff_bounds (trunc_cutoff cf d nv) (cs_total d1)) as (_ & _ & Hmid). rewrite (Hmid Hc0 ltac:(lia)). reflexivity.
+Qed.
+
+Lemma corrected_scores_x_same rp cf votes sc : profile_ok votes -> corrected_scores cf votes = inl sc ->
+  (forall cd, In cd sc -> (1 <= cs_total (snd cd))%Z) -> corrected_scores_x rp cf votes = inl sc.
+Proof.
+  intros Hv Hsc Hheld. unfold corrected_scores_x, corrected_scores in *. cbv zeta in *.
+  set (nv := fold_left Z.add (map snd votes) 0%Z) in *.
+  assert (Hnv : (0 <= nv)%Z).
+  { unfold nv. clear -Hv. assert (G : forall (l : sprofile) a, (forall bn, In bn l -> (0 <= snd bn)%Z) -> (0 <= a)%Z -> (0 <= fold_left Z.add (map snd l) a)%Z).
+    { induction l as [|bn l IHl]; intros a Hl Ha; [exact Ha|]. cbn [map fold_left]. apply IHl; [intros b Hb; apply Hl; right; exact Hb|].
+      pose proof (Hl bn (or_introl eq_refl)). lia. }
+    apply G; [intros bn Hbn; exact (proj1 (Hv bn Hbn))|lia]. }
+  revert sc Hsc Hheld. generalize (raw_scores_okd votes (fun bn H => proj1 (Hv bn H))) (raw_scores_bound votes Hv).
+  fold nv. generalize (raw_scores votes) as raw. induction raw as [|[c d] raw IHr]; intros Hokd Hbound sc Hsc Hheld; [exact Hsc|].
+  cbn [map sequence fst snd] in Hsc |- *.
+  destruct (correct_scores cf d nv) as [d3|e] eqn:Ec; [|discriminate].
+  destruct (sequence (map (fun cd : C * cscores => (fst cd, correct_scores cf (snd cd) nv)) raw)) as [r|e] eqn:Er; [|discriminate].
+  injection Hsc as <-.
+  rewrite (correct_scores_x_same rp cf d nv d3 (Hokd (c, d) (or_introl eq_refl)) (or_intror (Hbound (c, d) (or_introl eq_refl))) Hnv Ec
+             (Hheld (c, d3) (or_introl eq_refl))).
+  rewrite (IHr (fun cd H => Hokd cd (or_intror H)) (fun cd H => Hbound cd (or_intror H)) r eq_refl (fun cd H => Hheld cd (or_intror H))).
+  reflexivity.
+Qed.
+
+Lemma aggregate_holds fn sc agg : fn <> FSum -> Forall cs_ok sc -> aggregate fn sc = inl agg -> forall cd, In cd sc -> (1 <= cs_total (snd cd))%Z.
+Proof.
+  intros Hfn Hok Ha [c d] Hin. pose proof (aggregate_keys _ _ _ Ha) as Hk.
+  assert (Hc : In c (map fst agg)) by (rewrite Hk; apply in_map_iff; exists (c, d); auto).
+  clear Hk Hc. revert agg Ha. induction sc as [|cd0 sc IHs]; intros agg Ha; [destruct Hin|].
+  rewrite aggregate_cons in Ha. destruct (aggregate_one fn (snd cd0)) as [y|] eqn:Ey; [|discriminate].
+  destruct (aggregate fn sc) as [r|] eqn:Er; [|discriminate]. inversion Hok as [|? ? H0 Hok']; subst.
+  destruct Hin as [->|Hin]; [exact (aggregate_one_holds fn d y Hfn H0 Ey)|exact (IHs Hok' Hin r eq_refl)].
+Qed.
+
+(* score voting by mean or low median: an answer of the pinned code is the answer of the repaired code (every repair) *)
+Theorem score_voting_x_conservative rp cf votes n r : profile_ok votes -> sc_fn cf <> FSum ->
+  score_voting cf votes n = inl r -> score_voting_x rp cf votes n = inl r.
+Proof.
+  intros Hv Hfn. unfold score_voting, score_voting_x, score_to_simple, score_to_simple_x.
+  destruct (corrected_scores cf votes) as [sc|e] eqn:Esc; [|discriminate].
+  pose proof (corrected_scores_ok cf votes sc Hv Esc) as Hok.
+  destruct (aggregate (sc_fn cf) sc) as [agg|e] eqn:Ea; [|discriminate].
+  rewrite (corrected_scores_x_same rp cf votes sc Hv Esc (aggregate_holds _ _ _ Hfn Hok Ea)), (aggregate_x_ok rp _ _ Hok), Ea.
+  intros H. exact H.
+Qed.
+
+(* majority judgment, either rule *)
+Theorem majority_judgment_x_conservative rp plus cf votes n r : profile_ok votes -> (1 <= n)%nat ->
+  majority_judgment plus cf votes n = inl r -> majority_judgment_x rp plus cf votes n = inl r.
+Proof.
+  intros Hv Hn. unfold majority_judgment, majority_judgment_x.
+  destruct (corrected_scores cf votes) as [sc|e] eqn:Esc; [|discriminate].
+  pose proof (corrected_scores_ok cf votes sc Hv Esc) as Hok. pose proof (corrected_scores_nodup _ _ _ Esc) as Hnd.
+  destruct (aggregate FMedianLow sc) as [med|e] eqn:Ea; [|discriminate].
+  assert (Hfn : FMedianLow <> FSum) by discriminate.
+  rewrite (corrected_scores_x_same rp cf votes sc Hv Esc (aggregate_holds _ _ _ Hfn Hok Ea)), (aggregate_x_ok rp _ _ Hok), Ea. cbv zeta.
+  pose proof (aggregate_keys _ _ _ Ea) as Hkeys.
+  assert (Hndm : NoDup (map fst med)) by (rewrite Hkeys; exact Hnd).
+  destruct (gnb_cases med n Hn Hndm) as [(_ & Hplain & _)|(above & level & below & thr & k & Hp & _ & _ & _ & Hbest & Hlenb & Hk)].
+  - rewrite (last_tie_plain _ Hplain). intros H. exact H.
+  - rewrite Hbest, last_tie_app, count_tie_app.
+    fold (mj_level sc (map fst level)). set (sub := mj_level sc (map fst level)).
+    assert (Hwf : mj_wf sub) by (split; [apply filter_keys_NoDup_gen, Hnd|apply filter_ok, Hok]).
+    destruct plus.
+    + assert (Hpl : mj_plus_x rp sub (S k) = mj_plus sub (S k)).
+      { unfold mj_plus_x, mj_plus. destruct sub as [|[c0 d0] sub0]; [reflexivity|]. destruct Hwf as (_ & Hok0). inversion Hok0 as [|? ? H0 _]; subst.
+        unfold aggregate_one_x. destruct (rp_counted rp); [rewrite (okd_counted _ d0 H0)|]; reflexivity. }
+      rewrite Hpl. intros H. exact H.
+    + destruct (perm_parts _ _ _ _ Hndm Hp) as (_ & Hndl & Hlv).
+      assert (Hge : (length level <= length sub)%nat).
+      { apply keys_incl_length; [exact Hndl|]. intros c Hc0. destruct (Hlv c Hc0) as (Hmm & _).
+        rewrite Hkeys in Hmm. apply in_map_iff in Hmm. destruct Hmm as ([c0 d] & Hc1 & Hd). cbn [fst] in Hc1. subst c0.
+        apply in_map_iff. exists (c, d). split; [reflexivity|]. unfold sub, mj_level. apply filter_In. split; [exact Hd|].
+        cbn [fst]. apply cmem_In, Hc0. }
+      match goal with |- context [mj_default ?F sub (S k)] => set (fuel := F) end.
+      destruct (mj_default fuel sub (S k)) as [r'|e] eqn:Er; [|discriminate].
+      rewrite (mj_default_x_conservative rp fuel sub (S k) Hwf ltac:(lia)); [rewrite Er; intros H; exact H|rewrite Er; discriminate].
+Qed.
